@@ -193,7 +193,7 @@ def run_kani_units(pid, tier, scratch, report, only=None):
         report['undecided'].append(dict(obligation='%s/kani-build' % pid, backend='kani', reason=reason, output=tail))
         return None
     by_id = {r['harness_id']: r for r in j.get('verification_results', {}).get('results', [])}
-    stats = {c['harness_id']: c.get('cbmc_stats', {}) for c in j.get('cbmc', [])}
+    stats = {c['harness_id']: (c.get('cbmc_stats') or {}) for c in (j.get('cbmc') or [])}
     for h in hs:
         fq = reg.full_name(h)
         r = by_id.get(fq)
@@ -202,7 +202,7 @@ def run_kani_units(pid, tier, scratch, report, only=None):
             report['undecided'].append(dict(obligation=oname, backend='kani', reason='harness not found in results (renamed item / lost anchor?)'))
             continue
         s = ku.summarize_harness(r, hdir)
-        st = stats.get(fq, {})
+        st = stats.get(fq) or {}
         hrec = dict(unit=h['unit'], harness=h['name'], backend='kani/cbmc', shape=h['shape'], bounds=h.get('bounds', ''),
                     functions=h.get('fns', []), verdict=s['verdict'], checks=s['n_checks'], passed=s['n_passed'],
                     unreachable=s['n_unreachable'], covers=s['n_covers'], covers_satisfied=s['n_covers_sat'],
@@ -210,10 +210,11 @@ def run_kani_units(pid, tier, scratch, report, only=None):
                     symex_s=round(st.get('runtime_symex_s', 0) or 0, 2), assumes=h.get('assumes', []))
         report['harnesses'].append(hrec)
         if s['verdict'] == 'ok':
-            if s['unreachable_own'] and not h.get('allow_unreachable_asserts'):
-                locs = ['%s:%s' % (os.path.basename(c['location']['file']), c['location']['line']) for c in s['unreachable_own']][:5]
-                report['undecided'].append(dict(obligation=oname, backend='kani', reason='harness assertion(s) unreachable (vacuity guard): %s' % locs))
+            if s['n_own_passed'] < 1 and not h.get('allow_unreachable_asserts'):
+                report['undecided'].append(dict(obligation=oname, backend='kani', reason='no harness assertion was reachable (vacuity guard)'))
                 continue
+            hrec['own_assertions_reached'] = s['n_own_passed']
+            hrec['own_assertions_unreachable'] = len(s['unreachable_own'])
             if h.get('min_covers', 0) > s['n_covers']:
                 report['undecided'].append(dict(obligation=oname, backend='kani', reason='expected >= %d cover points, found %d' % (h['min_covers'], s['n_covers'])))
                 continue
@@ -433,7 +434,17 @@ def main(argv):
     if a.property not in reg.PROPERTIES:
         print('unknown or unclaimed property', a.property, file=sys.stderr)
         return 2
-    seed = int(os.environ.get('VERIF_SEED', '0') or 0)
+    try:
+        seed = int(os.environ.get('VERIF_SEED', '0') or 0)
+    except ValueError:
+        seed = 0
     if os.environ.get('VERIF_TIER') in ('quick', 'thorough'):
         a.tier = os.environ['VERIF_TIER']
-    return check_property(a.property, a.tier, seed)
+    try:
+        return check_property(a.property, a.tier, seed)
+    except Exception:
+        # an internal error of the machinery is never an alarm
+        import traceback
+        traceback.print_exc()
+        print('UNDECIDED property=%s obligation=%s/engine backend=vcheck reason=internal error of the checking machinery (see traceback)' % (a.property, a.property))
+        return 2
